@@ -4,6 +4,8 @@ CONSTANTS
   Writers = {"w1", "w2"}
   Chunks = 3
   HasOld = TRUE
+  Sizes = {1, 3}
+  BUG_FIXEDTMP = FALSE
   BUG_INPLACE = FALSE
   BUG_TMPEXT = FALSE
   BUG_NOCLEAN = FALSE
